@@ -46,6 +46,28 @@ FILES = {
 OPEN_OR_UNCHECKED = {"open_program"}
 
 
+# file-LEVEL shapes: the CLI is the only client of ParseFile, so how the file is read (buffering, line length, line
+# endings, encoding marks, size) is exercised here and nowhere else
+_LONG = "// " + "x" * 70000 + "\n"
+_PAD = "".join("// padding line %06d %s\n" % (i, "." * 80) for i in range(3000))          # ~ 300 KiB of short lines
+FILES.update({
+    "longline_then_ok": _LONG + FILES["ok_hello"],
+    "longline_then_type_error": _LONG + FILES["type_error"],
+    "longline_then_syntax_error": _LONG + FILES["syntax_error"],
+    "ok_then_longline_then_type_error": FILES["ok_hello"] + _LONG + "prc[b] : 1 * 1 = print second; close self\n",
+    "long_label": "prc[a] : 1 = print " + "l" * 70000 + "; close self\n",
+    "long_label_then_type_error": "prc[a] : 1 = print " + "l" * 70000 + "; close self\nprc[b] : 1 * 1 = close self\n",
+    "bigfile_then_type_error": _PAD + FILES["type_error"],
+    "bigfile_then_ok": _PAD + FILES["ok_hello"],
+    "crlf": FILES["ok_two_procs"].replace("\n", "\r\n"),
+    "crlf_type_error": FILES["type_error"].replace("\n", "\r\n"),
+    "no_trailing_newline": "prc[a] : 1 = print hello; close self",
+    "no_trailing_newline_type_error": "prc[a] : 1 * 1 = print hello; close self",
+    "utf8_bom": "\xef\xbb\xbf" + FILES["ok_hello"],
+    "one_line_many_decls": " ".join("prc[p%d] : 1 = close self" % i for i in range(150)) + " prc[z] : 1 * 1 = close self",
+})
+
+
 def flag_vectors():
     for tc, notc, ex, noex, sy, asy in itertools.product((1, 0), (0, 1), (1, 0), (0, 1), (0, 1), (1, 0)):
         yield (tc, notc, ex, noex, sy, asy)
